@@ -7,7 +7,7 @@ from . import common
 ID = "C07"
 RULE = ("Restricted networks: queue capacities {0,1,2} (and inf), fixed servers 1-3 and infinite-server sources, any topology with "
         "self-loops, all routing objects, priorities, non-pre-emptive schedules as blocking sources, batching, reneging, class "
-        "changes; no pre-emption.  The monitor keeps its own per-destination list of blocked customers in the order it saw them "
+        "changes; no pre-emption except priority re-routing in the overfull sub-check.  The monitor keeps its own per-destination list of blocked customers in the order it saw them "
         "become blocked.  After every event: a finished customer has moved on or is blocked; nobody is blocked while its destination "
         "has space; blocked customers hold their server and keep their destination; customers that entered a node are exactly the "
         "longest-blocked ones; Ciw's blocked_queue equals the model; time_blocked equals the monitor's own timestamps; a blocked "
